@@ -212,7 +212,7 @@ func c02Run(c *vlib.Ctx, idx int, sc c02Scenario) {
 	}
 	s, err := coresim.Start(coresim.Options{Agents: agents, Detectors: stdDetectors(3), Files: wf.Files()})
 	if err != nil {
-		c.Inconclusive("coresim start: " + err.Error())
+		c.Inconclusive("coresim start: " + truncate(err.Error(), 12000))
 		return
 	}
 	obs := &c02Obs{Scenario: sc, Index: idx}
